@@ -34,18 +34,18 @@ TraceInit ==
   /\ pos = [p \in 1..(CfgOf(tid).nw + 1) |-> 0]
   /\ TLCSet(tid, 0)
 
-Msg(e) == [c |-> e.c, i |-> e.i, v |-> e.v]
+SameMsg(m, e) == m.c = e.c /\ m.i = e.i /\ m.v = e.v
 
 ParentEvent(e) ==
   CASE e.op = "call"    -> CallStart /\ call' = e.c /\ cfg.nts[e.c] = e.i
     [] e.op = "serial"  -> SerialStep /\ nput + 1 = e.i /\ call = e.c
     [] e.op = "tput"    -> ParentPut /\ nput' = e.i /\ call = e.c
-    [] e.op = "rget"    -> ParentGet /\ Head(resQ) = Msg(e)
+    [] e.op = "rget"    -> \E n \in 1..Len(resQ) : SameMsg(resQ[n], e) /\ ParentGetAt(n)
     [] e.op = "tempty"  -> ParentCheckTask /\ (e.b = 1) = (taskQ = <<>>)
     [] e.op = "rempty"  -> ParentCheckRes /\ (e.b = 1) = (resQ = <<>>)
     [] e.op = "ret"     -> /\ pc = "ret" /\ ParentReturn
                            /\ Len(e.res) = NT
-                           /\ \A n \in 1..NT : res[n] = [c |-> e.res[n][1], i |-> e.res[n][2], v |-> e.res[n][3]]
+                           /\ \A n \in 1..NT : res[n].c = e.res[n][1] /\ res[n].i = e.res[n][2] /\ res[n].v = e.res[n][3]
     [] e.op = "raise"   -> pc = "raise" /\ ParentRaise /\ raisedIdx = e.i /\ call = e.c
     [] e.op = "valerr"  -> pc = "valerr" /\ ParentRaise
     [] e.op = "shutdown" -> Shutdown
@@ -53,7 +53,7 @@ ParentEvent(e) ==
 
 WorkerEvent(k, e) ==
   CASE e.op = "tget" -> WorkerTake(k) /\ Head(taskQ) = [c |-> e.c, i |-> e.i]
-    [] e.op = "rput" -> (WorkerDone(k) \/ WorkerRaise(k)) /\ Last(resQ') = Msg(e)
+    [] e.op = "rput" -> (WorkerDone(k) \/ WorkerRaise(k)) /\ SameMsg(Last(resQ'), e)
     [] OTHER -> FALSE
 
 TraceNext ==
